@@ -1,6 +1,6 @@
 (* Model/Dispatch.v — one entry point for the harness: op code + encoded argument -> encoded
    result.  Op codes are listed in harness/ops.py.  Glue, no proofs. *)
-From VK Require Import Base Core STV Pairwise Rules PV Election BallotCtor Cleaning Metrics Loaders GenValidation PrefInterval Codec.
+From VK Require Import Base Core STV Pairwise Rules PV Election BallotCtor Cleaning Metrics Loaders GenValidation PrefInterval Generators Codec.
 
 Definition op_remove_cand (v : val) : val :=
   match v with
@@ -330,6 +330,125 @@ Definition op_slate_bt_pdf (v : val) : val :=
   | _ => VE EScript
   end.
 
+(* ---------- generators ---------- *)
+Definition ePop (l : list (pcand * Q)) : val := VS (map (fun p => VL [ePos (fst p); VQ (snd p)]) l).
+Definition eGcall (c : gcall) : val :=
+  match c with
+  | GPL pop k => VL [VZ 1; ePop pop; eNat k]
+  | GUniSub pop k => VL [VZ 2; VS (map ePos pop); eNat k]
+  | GIID pop k => VL [VZ 3; ePop pop; eNat k]
+  | GTable tbl n => VL [VZ 4; VS (map (fun x => VL [VL (map ePos (fst x)); VQ (snd x)]) tbl); eNat n]
+  | GTypeTable tbl n => VL [VZ 5; VS (map (fun x => VL [VL (map ePos (fst x)); VQ (snd x)]) tbl); eNat n]
+  | GUniforms n => VL [VZ 6; eNat n]
+  | GShuffle pop => VL [VZ 7; VS (map ePos pop)]
+  end.
+Definition eGen (x : list (bloc * gprofile) * gprofile * list gcall) : val :=
+  match x with
+  | (by_bloc, agg, calls) =>
+      VL [VS (map (fun bp => VL [ePos (fst bp); eProfile (snd bp)]) by_bloc); eProfile agg; VL (map eGcall calls)]
+  end.
+Definition gen_finish (pools : list (bloc * (list gballot * list gcall)))
+  : res (list (bloc * gprofile) * gprofile * list gcall) :=
+  let! r := finish_blocs (map (fun x => (fst x, fst (snd x))) pools) in
+  ok (fst r, snd r, concat (map (fun x => snd (snd x)) pools)).
+Definition dCands (v : val) : res (list pcand) := dList dPos v.
+
+Definition op_gen_pl (v : val) : val :=
+  match v with
+  | VL [bl; blocs] =>
+      eRes eGen (let! bl' := dNat bl in
+                 let! pools := dList (fun b => match b with
+                     | VL [bid; iv; draws] =>
+                         let! bid' := dPos bid in let! iv' := dPI iv in
+                         let! ds := dList (dPair dCands dCands) draws in
+                         let! r := pl_bloc iv' bl' ds in ok (bid', r)
+                     | _ => err EScript end) blocs in
+                 gen_finish pools)
+  | _ => VE EScript
+  end.
+Definition op_gen_cumulative (v : val) : val :=
+  match v with
+  | VL [nv; blocs] =>
+      eRes eGen (let! nv' := dNat nv in
+                 let! pools := dList (fun b => match b with
+                     | VL [bid; iv; draws] =>
+                         let! bid' := dPos bid in let! iv' := dPI iv in
+                         let! ds := dList dCands draws in
+                         let! r := cumulative_bloc iv' nv' ds in ok (bid', r)
+                     | _ => err EScript end) blocs in
+                 gen_finish pools)
+  | _ => VE EScript
+  end.
+Definition op_gen_bt (v : val) : val :=
+  eRes eGen (let! pools := dList (fun b => match b with
+                 | VL [bid; iv; n; draws] =>
+                     let! bid' := dPos bid in let! iv' := dPI iv in let! n' := dNat n in
+                     let! ds := dList dCands draws in
+                     let! r := table_bloc (bt_pdf (pi_int iv')) (pi_zero iv') n' ds in ok (bid', r)
+                 | _ => err EScript end) v in
+             gen_finish pools).
+Definition op_gen_point (v : val) : val :=
+  match v with
+  | VL [cs; point; n; draws] =>
+      eRes (fun x => VL [eProfile (fst x); VL (map eGcall (snd x))])
+           (let! cs' := dCands cs in let! pt := dList (dPair dPos dQ) point in let! n' := dNat n in
+            let! ds := dList dCands draws in
+            let! r := table_bloc (point_table cs' pt) [] n' ds in
+            let! p := pool_to_profile ds cs' in ok (p, snd r))
+  | _ => VE EScript
+  end.
+Definition dSlateIv (v : val) : res (list (bloc * pinterval)) := dList (dPair dPos dPI) v.
+Definition op_gen_slate_pl (v : val) : val :=
+  eRes eGen (let! pools := dList (fun b => match b with
+      | VL [bid; ivs; sizes; coh; zero; ballots] =>
+          let! bid' := dPos bid in let! ivs' := dSlateIv ivs in
+          let! sz := dList (dPair dPos dNat) sizes in let! coh' := dList (dPair dPos dQ) coh in
+          let! zero' := dCands zero in
+          let ncand := fold_right Nat.add O (map snd sz) in
+          let! bs := dList (fun x => match x with
+              | VL [flips; sh; orders] =>
+                  let! fl := dList dQ flips in let! sh' := dOpt dCands sh in
+                  let! os := dList (dPair dPos dCands) orders in
+                  let! tc := type_loop fl (map fst coh') (map snd coh') sz [] sh' in
+                  let! bc := slate_ballot ivs' zero' (fst tc) os in
+                  ok (fst bc, snd tc ++ snd bc)
+              | _ => err EScript end) ballots in
+          ok (bid', (map fst bs, GUniforms (ncand * length bs) :: concat (map snd bs)))
+      | _ => err EScript end) v in
+    gen_finish pools).
+Definition op_gen_slate_bt (v : val) : val :=
+  eRes eGen (let! pools := dList (fun b => match b with
+      | VL [bid; ivs; sizes; own; opp; coh; zero; ballots] =>
+          let! bid' := dPos bid in let! ivs' := dSlateIv ivs in
+          let! sz := dList (dPair dPos dNat) sizes in let! own' := dPos own in let! opp' := dPos opp in
+          let! coh' := dQ coh in let! zero' := dCands zero in
+          let tbl := slate_bt_pdf sz own' opp' coh' in
+          let! bs := dList (fun x => match x with
+              | VL [t; orders] =>
+                  let! t' := dCands t in let! os := dList (dPair dPos dCands) orders in
+                  if negb (existsb (fun e => type_eqb (fst e) t' && Qlt_bool 0 (snd e)) tbl) then err EScript
+                  else slate_ballot ivs' zero' t' os
+              | _ => err EScript end) ballots in
+          ok (bid', (map fst bs, GTypeTable tbl (length bs) :: concat (map snd bs)))
+      | _ => err EScript end) v in
+    gen_finish pools).
+Definition op_gen_ac (v : val) : val :=
+  eRes eGen (let! pools := dList (fun b => match b with
+      | VL [bid; ncross; bc; oc; pb; po; draws] =>
+          let! bid' := dPos bid in let! nc := dNat ncross in let! bc' := dCands bc in let! oc' := dCands oc in
+          let! pb' := dList dQ pb in let! po' := dList dQ po in
+          let! ds := dList (dPair dCands dCands) draws in
+          let! r := ac_bloc nc O bc' oc' pb' po' ds in ok (bid', r)
+      | _ => err EScript end) v in
+    gen_finish pools).
+Definition op_gen_spatial (v : val) : val :=
+  match v with
+  | VL [cs; dists] =>
+      eRes eProfile (let! cs' := dCands cs in let! ds := dList (dList dQ) dists in
+                     pool_to_profile (map (sort_by_distance cs') ds) cs')
+  | _ => VE EScript
+  end.
+
 Definition dispatch (op : Z) (v : val) : val :=
   match op with
   | 1 => op_remove_cand v
@@ -359,6 +478,14 @@ Definition dispatch (op : Z) (v : val) : val :=
   | 72 => op_to_csv v
   | 80 => op_lp_sum v
   | 90 => op_mk_interval v
+  | 95 => op_gen_pl v
+  | 96 => op_gen_cumulative v
+  | 97 => op_gen_bt v
+  | 98 => op_gen_point v
+  | 99 => op_gen_slate_pl v
+  | 100 => op_gen_slate_bt v
+  | 101 => op_gen_ac v
+  | 102 => op_gen_spatial v
   | 91 => op_combine_intervals v
   | 92 => op_bt_pdf v
   | 93 => op_calc_prob v
